@@ -20,6 +20,8 @@ import (
 
 // Session owns one scratch Go module in which designs are generated and built.
 type Session struct {
+	// GenTimeout bounds one goaeval run (0 = 120s)
+	GenTimeout time.Duration
 	Root      string // scratch directory (the module root, module name "scratch")
 	VerifRoot string
 	Repo      string
